@@ -200,6 +200,30 @@ def oracle(case, out, rec, lens):
         fails.append("lens log-likelihood %r != data likelihood at rescaled distances %r" % (out["value"], want))
     if len(rec.data) != 1:
         fails.append("sharp evaluation made %d data-likelihood calls" % len(rec.data))
+    if case["stream"] == "main" and not out.get("complex"):
+        # the hyper-parameters as a caller may hold them: numpy scalars in 0-d arrays (np.array(x), the result of np.squeeze, an
+        # entry of a structured record).  Same value — also the second time the same dictionaries are handed over — and the
+        # caller's arrays are left as they were
+        h2 = {k: (dict(v) if isinstance(v, dict) else (None if v is None else [dict(x) for x in v])) for k, v in h.items()}
+        for key in ("lambda_mst", "lambda_ifu", "alpha_lambda", "beta_lambda", "gamma_ppn"):
+            if key in h2["kwargs_lens"]:
+                h2["kwargs_lens"][key] = np.array(float(h2["kwargs_lens"][key]))
+        before = {k: float(v) for k, v in h2["kwargs_lens"].items() if isinstance(v, np.ndarray)}
+        lens2 = lc.make_lens(lt, cfg, case["data"])
+        try:
+            vals = []
+            for _ in range(2):
+                np.random.seed(1)
+                v2 = np.squeeze(lens2.hyper_param_likelihood(case["ddt"], case["dd"], case["dlum"], beta_dsp=case["beta"], **h2))
+                vals.append(float(v2.real if np.iscomplexobj(v2) else v2))
+            after = {k: float(v) for k, v in h2["kwargs_lens"].items() if isinstance(v, np.ndarray)}
+            if after != before:
+                fails.append("hyper-parameters held in 0-d arrays were modified by the evaluation: %r -> %r" % (before, after))
+            if not (close(vals[0], out["value"], 1e-9) and close(vals[1], out["value"], 1e-9)):
+                fails.append("hyper-parameters held in 0-d arrays: values %r (two evaluations with the same dictionaries), with plain floats %r"
+                             % (vals, out["value"]))
+        except Exception as e:  # noqa
+            fails.append("hyper-parameters held in 0-d arrays raised %s" % err_enum(e))
     if case["stream"] == "neutral":
         bare = float(np.squeeze(direct_data(lens, lt, case["ddt"], case["dd"], ks, sv, mu + case["dlum"], case["beta"], gpl, 1.0)))
         if not close(out["value"], bare, TOL):
